@@ -255,6 +255,7 @@ def run_retention(case, rec):
 PAIRS = [
     ('view', 'view'), ('ok', 'ok'), ('ctx', 'view'), ('ok', 'boom'), ('batch', 'ctx'), ('jsok', 'jsfail'),
     ('nobind', 'ok'), ('pdok', 'pdok'), ('viewfail', 'view'), ('ctxinject', 'ctx'), ('perr', 'unknown'), ('notif', 'parse'),
+    ('fmt-strict-bad', 'fmt-lenient'), ('vpd', 'vjs'), ('pdv2', 'pdok'), ('vpd', 'vpd'),
 ]
 TRIPLES = [('view', 'ctx', 'ok'), ('ok', 'ok', 'boom'), ('view', 'view', 'view')]
 
